@@ -98,6 +98,10 @@ def strategies(run: Run, only: Dict[str, Any] | None = None) -> None:
                         draws.append({"chain": vec["chain"], "nullable": ev["nullable"], "unique": ev["unique"], "size": ev["size"],
                                       "ranks": d["ranks"], "has_duplicates": d["has_duplicates"]})
                         where.append((vec, ev, d))
+                        for oc in d.get("other_columns", []):
+                            draws.append({"chain": vec["chain"], "nullable": ev["nullable"], "unique": ev["unique"], "size": ev["size"],
+                                          "ranks": oc["ranks"], "has_duplicates": oc["has_duplicates"]})
+                            where.append((vec, ev, dict(d, values=oc["values"], ranks=oc["ranks"], other_column=True, other_columns=[])))
         broken: Dict[int, List[str]] = {}
         if draws:
             dpath = os.path.join(tmp, "judge.json")
@@ -116,6 +120,8 @@ def strategies(run: Run, only: Dict[str, Any] | None = None) -> None:
         for i, (vec, ev, d) in enumerate(where):
             if i in broken:
                 problems.append((vec, ev, d, "the specification rejects the draw: %s" % ",".join(sorted(broken[i]))))
+            elif d.get("other_column") or any((i + 1 + j) in broken for j in range(len(d.get("other_columns", [])))):
+                continue        # the validator's verdict is about the whole frame: a broken sibling column explains it
             elif d["validator"] != "accepts":
                 problems.append((vec, ev, d, "the specification accepts the values but the schema's own validate %s" % d["validator"]))
         # string chains and container-level facts: the implementation's validator
